@@ -94,7 +94,9 @@ func decTags() []string {
 
 var decSpecialTags = []string{"BAPM", "BIRT", "BURI", "DATE", "DEAT", "EVEN", "FONE", "FORM", "LATI", "LONG", "MAP",
 	"NAME", "NICK", "NOTE", "PLAC", "RESI", "ROMN", "SEX", "SOUR", "TYPE", "_FID", "_FSFTID", "_UID"}
-var decCustomTags = []string{"_CUSTOM", "X", "X1", "123", "0", "a_b", "_", "lower", "Z9_", "1NAME", "TAG2"}
+var decCustomTags = []string{"_CUSTOM", "X", "X1", "123", "0", "a_b", "_", "lower", "Z9_", "1NAME", "TAG2",
+	// case variants of registered tags are *different*, unregistered tags (plain nodes)
+	"name", "Name", "Date", "date", "_uid", "Birt", "sex", "Plac", "note", "Resi", "even", "sour", "Type", "nAME"}
 var decValues = []string{"", "", "", "x", "Joe /Bloggs/", "@I1@", "@F1@", "0", "1", "12 NOTE x", "1 NAME Bob", "0 @I9@ INDI",
 	"abc@", "@", "@@", "a  b", "3 Sep 1943", "Bet. 1900 and 1910", "(phrase)", "M", "F", "é ü 日本", "\xff\xfe", "a\tb",
 	"x y", "-", "HUSB", "Oldtown, , , Someland", "EE13561DDB204985BFFDEEBF82A5226C5B2E", "v w x y z", "=", "'\"<>&"}
